@@ -620,7 +620,7 @@ func (x *fx) applyContract(c2 *Contract, f *ssa.Function, sig *types.Signature, 
 				var in []string
 				in = append(in, "(>= "+r.ref+" "+x.top0+")", x.ile(r.hi, r.lo))
 				for _, q := range x.regions {
-					if q.mem == r.mem {
+					if q.mem == r.mem && (q.sub == nil || (r.sub != nil && subPrefix(q.sub, r.sub))) {
 						in = append(in, x.and("(= "+r.ref+" "+q.ref+")", x.ile(q.lo, r.lo), x.ile(r.hi, q.hi)))
 					}
 				}
@@ -744,10 +744,38 @@ func (x *fx) regionsOf(e *Expr, env *specEnv) []region {
 	// p.f : a single field of the struct p points to
 	if e.Op == "field" {
 		base := x.eval(e.Args[0], env)
-		if _, ok := base.T.Underlying().(*types.Pointer); ok && len(base.Path) > 0 {
-			// field of a struct embedded in a heap object: the enclosing root field is the region
+		if _, isPtr := base.T.Underlying().(*types.Pointer); !isPtr {
+			// p.s.f : a field of a struct VALUE nested in the object p points to: the
+			// cell of the enclosing root field, narrowed to the nested component
+			if pa, ok := x.specAddr(e, env); ok && len(pa.Path) > 1 {
+				off := ptrOff(pa.S)
+				r := region{mem: x.fieldMemNameOf(pa.Path[0]), ref: ptrRef(pa.S), lo: off, hi: x.iadd(off, x.idxConst(1))}
+				r.sub = append([]pathEl{}, pa.Path[1:]...)
+				r.subT = pa.Path[0].T
+				return []region{r}
+			}
+		}
+		if pt, ok := base.T.Underlying().(*types.Pointer); ok && len(base.Path) > 0 {
+			// field of a struct embedded in a heap object: the enclosing root field is the
+			// region, narrowed to the nested component when the path is made of fields only
 			off := ptrOff(base.S)
-			return []region{{mem: x.fieldMemNameOf(base.Path[0]), ref: ptrRef(base.S), lo: off, hi: x.iadd(off, x.idxConst(1))}}
+			r := region{mem: x.fieldMemNameOf(base.Path[0]), ref: ptrRef(base.S), lo: off, hi: x.iadd(off, x.idxConst(1))}
+			if st, ok := pt.Elem().Underlying().(*types.Struct); ok {
+				sub := append([]pathEl{}, base.Path[1:]...)
+				fieldsOnly := true
+				for _, pe := range sub {
+					if pe.IsIdx {
+						fieldsOnly = false
+					}
+				}
+				for k := 0; k < st.NumFields() && fieldsOnly; k++ {
+					if st.Field(k).Name() == e.Name {
+						r.sub = append(sub, pathEl{Field: k, Name: e.Name, T: st.Field(k).Type(), ST: st})
+						r.subT = base.Path[0].T
+					}
+				}
+			}
+			return []region{r}
 		}
 		if pt, ok := base.T.Underlying().(*types.Pointer); ok && len(base.Path) == 0 {
 			if st, ok := pt.Elem().Underlying().(*types.Struct); ok {
@@ -894,7 +922,7 @@ func (x *fx) rangeWrite(et types.Type, ref, lo, hi string, val func(mem, i strin
 			var in []string
 			in = append(in, "(>= "+ref+" "+x.top0+")", x.ile(hi, lo))
 			for _, q := range x.regions {
-				if q.mem == name {
+				if q.mem == name && q.sub == nil {
 					in = append(in, x.and("(= "+ref+" "+q.ref+")", x.ile(q.lo, lo), x.ile(hi, q.hi)))
 				}
 			}
@@ -991,7 +1019,7 @@ func (x *fx) appendBuiltin(s, t *Val, stype, ttype types.Type, set func(*Val)) {
 			var in []string
 			in = append(in, not(inPlace), "(>= "+slBase(s.S)+" "+x.top0+")", x.ile(tl, x.idxConst(0)))
 			for _, q := range x.regions {
-				if q.mem == name {
+				if q.mem == name && q.sub == nil {
 					in = append(in, x.and("(= "+slBase(s.S)+" "+q.ref+")", x.ile(q.lo, x.iadd(slOff(s.S), slLen(s.S))), x.ile(x.iadd(slOff(s.S), newLen), q.hi)))
 				}
 			}
@@ -1126,9 +1154,94 @@ func (x *fx) keepRegion(r region, newV, oldV string) string {
 		// allof(T.f): the field f of EVERY object of type T
 		return "(= " + newV + " " + oldV + ")"
 	}
+	if r.sub != nil {
+		nc := fmt.Sprintf("(select (select %s %s) %s)", newV, r.ref, r.lo)
+		oc := fmt.Sprintf("(select (select %s %s) %s)", oldV, r.ref, r.lo)
+		return "(= " + x.applyPath(nc, r.subT, r.sub) + " " + x.applyPath(oc, r.subT, r.sub) + ")"
+	}
 	if r.hi == x.iadd(r.lo, x.idxConst(1)) {
 		return fmt.Sprintf("(= (select (select %s %s) %s) (select (select %s %s) %s))", newV, r.ref, r.lo, oldV, r.ref, r.lo)
 	}
 	return fmt.Sprintf("(forall ((i %s)) (! (=> %s (= (select (select %s %s) i) (select (select %s %s) i))) :pattern ((select (select %s %s) i))))",
 		x.idxSort(), x.and(x.ile(r.lo, "i"), x.ilt("i", r.hi)), newV, r.ref, oldV, r.ref, newV, r.ref)
+}
+
+// specAddr returns the address (a pointer value with a component path) of a field
+// selection chain p.a.b.c that starts at a pointer-valued expression p and walks
+// through struct VALUES only (embedded structs are looked through by name).
+func (x *fx) specAddr(e *Expr, env *specEnv) (pv *Val, ok bool) {
+	if e.Op != "field" {
+		return nil, false
+	}
+	defer func() {
+		if r := recover(); r != nil {
+			if _, isSpec := r.(specErr); !isSpec {
+				panic(r)
+			}
+			pv, ok = nil, false
+		}
+	}()
+	var bp *Val
+	bv := x.eval(e.Args[0], env)
+	if _, isPtr := bv.T.Underlying().(*types.Pointer); isPtr {
+		bp = bv
+	} else if bp, ok = x.specAddr(e.Args[0], env); !ok {
+		return nil, false
+	}
+	cur := bp.T.Underlying().(*types.Pointer).Elem()
+	index := findFieldPath(cur, e.Name)
+	if index == nil {
+		return nil, false
+	}
+	path := append([]pathEl{}, bp.Path...)
+	for _, k := range index {
+		st, isStruct := cur.Underlying().(*types.Struct)
+		if !isStruct {
+			return nil, false
+		}
+		f := st.Field(k)
+		pe := pathEl{Field: k, Name: f.Name(), T: f.Type(), ST: st}
+		if len(path) == 0 {
+			pe.rootT = cur
+		}
+		path = append(path, pe)
+		cur = f.Type()
+	}
+	for _, pe := range path {
+		if pe.IsIdx {
+			return nil, false
+		}
+	}
+	return &Val{T: types.NewPointer(cur), S: bp.S, Path: path}, true
+}
+
+// findFieldPath: the index path of field name in struct type t, looking through
+// embedded struct values (not pointers), shallowest first.
+func findFieldPath(t types.Type, name string) []int {
+	type item struct {
+		t    types.Type
+		path []int
+	}
+	queue := []item{{t, nil}}
+	for depth := 0; len(queue) > 0 && depth < 6; depth++ {
+		var next []item
+		for _, it := range queue {
+			st, ok := it.t.Underlying().(*types.Struct)
+			if !ok {
+				continue
+			}
+			for k := 0; k < st.NumFields(); k++ {
+				if st.Field(k).Name() == name {
+					return append(append([]int{}, it.path...), k)
+				}
+			}
+			for k := 0; k < st.NumFields(); k++ {
+				if st.Field(k).Embedded() {
+					next = append(next, item{st.Field(k).Type(), append(append([]int{}, it.path...), k)})
+				}
+			}
+		}
+		queue = next
+	}
+	return nil
 }
